@@ -15,15 +15,20 @@ META = {
             "exactly rooted-clean(p) followed by rooted-clean(f) (no '', '.', '..' elements, inside the package, "
             "inside srcDir/outDir after env.src/env.out, also with the output suffixes); a file set is exactly "
             "explicit + (selected minus ignored), sorted and duplicate-free, and a directory ignore is the "
-            "segment-wise strictly-beneath relation; Go's path.Match and filepath.Match are modelled in full "
+            "segment-wise strictly-beneath relation; ignore entries are independent of one another (a name is ignored "
+            "iff one entry alone ignores it: no other entry - a directory sorting between an ignored directory and "
+            "its files, a nested one, another order - changes the verdict; a sorted predecessor lookup is refuted); Go's path.Match and filepath.Match are modelled in full "
             "(classes, escapes, multi-byte runes, ErrBadPattern; total, sound for the declarative reading, '*'/'?' "
-            "never match '/', '?' takes one rune), filepath.Glob level by level with its error paths, and source "
-            "trees with symbolic links (the recursive listing never follows one).  The model is tied to the code by exhaustive small-string "
+            "never match '/', '?' takes one rune; complete for class-free patterns on names of single-byte runes, "
+            "with the two real incompleteness cases - a class taking the '/', '??' taking a wide rune - as "
+            "refutations confirmed against the toolchain's path.Match), filepath.Glob level by level with its error paths, and source "
+            "trees with symbolic links (the recursive listing never follows one; its members are characterised entry "
+            "by entry, and a non-directory entry of any name - a '.git' file or link - never prunes its siblings).  The model is tied to the code by exhaustive small-string "
             "and generated differential runs evaluated inside Coq, and by translator obligations on the "
             "source text of the resolution functions, the exclusion lists and the table of resolver calls.",
     "note": "Trusted: Coq kernel + vm_compute; translator gen/caco_names.go; harness and caco3/verif_names.go shim; "
             "path.Match/filepath.Match/filepath.Glob modelled after the Go 1.23 sources (completeness of the greedy "
-            "chunk loop is exercised, not proved); file system walk order not modelled; docker-backed rules (which "
+            "chunk loop is proved for patterns without classes on single-byte-rune names and refuted in general); file system walk order not modelled; docker-backed rules (which "
             "follow file symlinks when streaming inputs) not run; open finding: selections pass through linked "
             "directories; no axioms.",
     "technique": "Coq proof (stack invariant of Clean, induction over segments) + go/ast translation of constants "
@@ -166,26 +171,36 @@ def beneath(name, d):
 
 def oracle_fileset(c):
     """Expected listing by the property's own wording; returns (key, why) or None."""
-    if c.get("err"):
+    if c.get("err") not in (None, "", "nofiles"):
         return None
     r, p = c["rule"], c["p"]
     if not all(simple(x) for x in r["select"] + r["ignore"]):
         return None     # classes / escapes: the correspondence with the proved model decides
-    if any(kind(e) not in ("f", "d") for e in c["tree"]):
-        return None
-    files = [e["p"] for e in c["tree"] if kind(e) == "f"]
+    recursive_only = all(sel == "**" or sel.endswith("/**") for sel in r["select"])
+    if any(kind(e) not in ("f", "d") for e in c["tree"]) and not recursive_only:
+        return None     # filepath.Glob passes through linked directories (open finding): correspondence decides
+    # what a recursive listing can list: everything that is not a real directory (regular files and
+    # symbolic links of any kind, by name; nothing is read through a link)
+    files = [e["p"] for e in c["tree"] if kind(e) != "d"]
     entries = [e["p"] for e in c["tree"]]
-    kinds = {e["p"]: kind(e) == "d" for e in c["tree"]}
+    kinds = {e["p"]: kind(e) == "d" for e in c["tree"]}      # path -> is a real directory
     idirs = [resolve_rel(p, i) for i in r["ignore"] if i.endswith("/")]
     ipats = [resolve_rel(p, i) for i in r["ignore"] if not i.endswith("/")]
 
     def ignored(m):
         return any(beneath(m, d) for d in idirs) or any(glob_match(i, m) for i in ipats)
 
+    def walked(q):
+        """the walk descends q: a real directory not named .git (a link is an entry, never followed)"""
+        return kinds.get(q) is True and q.split("/")[-1] != ".git"
+
     expected = set(resolve_any(p, f) for f in r["files"])
+    empty_select = None
     for sel in r["select"]:
         if sel == "**" or sel.endswith("/**"):
             root = "/".join(py_clean_segs(p)) if sel == "**" else resolve_rel(p, sel[:-3])
+            if root != "" and root not in kinds:
+                return None     # the listing fails (no such directory): "list all files"
             if root != "" and root in kinds and not kinds[root]:
                 ms = [root] if file_ok(root.split("/")[-1]) else []
             else:
@@ -197,13 +212,24 @@ def oracle_fileset(c):
                             continue
                         rest = f[len(root) + 1:] if root else f
                         parts = rest.split("/")
-                        if ".git" in parts[:-1] or not file_ok(parts[-1]):
+                        between = [(root + "/" if root else "") + "/".join(parts[:k]) for k in range(1, len(parts))]
+                        if not all(walked(q) for q in between) or not file_ok(parts[-1]):
                             continue
                         ms.append(f)
         else:
             pat = resolve_rel(p, sel)
             ms = ["."] if pat == "" else [e for e in entries if glob_match(pat, e)]
+        if not ms and empty_select is None:
+            empty_select = sel
         expected |= set(m for m in ms if not ignored(m))
+    if c.get("err") == "nofiles":
+        if empty_select is None:
+            return ("impl:fileset:missing",
+                    "a selection was reported to select no files although every selection of %r matches files "
+                    "(e.g. %r)" % (r["select"], sorted(expected)[:4]))
+        return None
+    if empty_select is not None:
+        return None     # the code must report "select no files": the correspondence decides
     got = c.get("outs") or []
     if got != sorted(set(got)):
         return ("impl:fileset:unsorted", "file list not sorted/duplicate-free: %r" % got)
